@@ -595,6 +595,15 @@ FIXED.append(
 )
 
 
+def _deps_in(t):
+    """Every dependent refinement in a field's type expression, at any nesting (member of a tuple, element of a list)."""
+    if isinstance(t, list) and t and isinstance(t[0], str):
+        if t[0] == "dep":
+            yield t
+        for x in t[1:]:
+            yield from _deps_in(x)
+
+
 def retyped(desc: dict, rng) -> dict | None:
     """A copy of the descriptor in which ONE field of one production is declared differently (the documented idiom
     `Prod.__init__.__annotations__[field] = NewType` followed by a new extraction). None if nothing suitable."""
@@ -606,7 +615,7 @@ def retyped(desc: dict, rng) -> dict | None:
     cands = []
     leafs = [p["name"] for p in d["prods"] if not p["fields"]]
     for p in d["prods"]:
-        depended_on = {n for g in p["fields"] if g[1][0] == "dep" for n in g[1][2].split(",")}
+        depended_on = {n for g in p["fields"] for dep in _deps_in(g[1]) for n in dep[2].split(",")}
         for f in p["fields"]:
             t = f[1]
             if f[0] in depended_on:
@@ -790,3 +799,20 @@ def family(seed: int, n: int, profile="general", with_fixed=True):
         out.append(gen_descriptor(seed * 100003 + i, profile))
         i += 1
     return out[:n]
+
+
+FIXED.append(
+    {  # a dependent refinement BELOW the field: member of a tuple, element of a plain list, element of a sized list (the
+        # refinement still speaks about the siblings of the field it sits in)
+        "name": "fx_dep_nested",
+        "abstracts": [{"name": "R", "parent": None, "style": "abc"}],
+        "prods": [
+            {"name": "Leaf", "parent": "R", "fields": []},
+            {"name": "InTuple", "parent": "R", "fields": [["lo", ["ann", ["int"], ["IntRange", 0, 2]]], ["pair", ["tuple", ["dep", ["int"], "lo", "intrange_up", 1], ["bool"]]]]},
+            {"name": "InList", "parent": "R", "fields": [["lo", ["ann", ["int"], ["IntRange", 0, 2]]], ["xs", ["list", ["dep", ["int"], "lo", "intrange_up", 1]]]]},
+            {"name": "InSized", "parent": "R", "fields": [["lo", ["ann", ["int"], ["IntRange", 0, 2]]], ["xs", ["ann", ["list", ["dep", ["int"], "lo", "intrange_up", 1]], ["ListSizeBetween", 1, 2]]]]},
+            {"name": "Both", "parent": "R", "fields": [["l", ["ref", "R"]], ["r", ["ref", "R"]]]},
+        ],
+        "start": "R",
+    }
+)
